@@ -262,4 +262,6 @@ def run(repo, tier):
     res.floor('FIXED', 9)
     res.floor('SPEC', 6)
     res.floor('D2', 2)
+    from .common import run_clone_pairs
+    run_clone_pairs(repo, res, {m for m in repo.modules if m.startswith('photutils.isophote') and '.tests' not in m})
     return res
